@@ -6,7 +6,6 @@ import (
 	"fmt"
 	"os"
 	"os/exec"
-	"reflect"
 	"sort"
 	"strings"
 	"sync"
@@ -85,10 +84,9 @@ func c08Compare(s string, maps []map[string]string, sink *violSink, st *c08Stats
 		sink.add(report.Viol{Property: "C08", Check: "C08/roundtrip", Rule: "roundtrip-unparseable", Text: fmt.Sprintf("%q prints as %q which does not parse: %s", s, text2, impl2.err), Trace: []string{s, text2}})
 		return
 	}
-	if !reflect.DeepEqual(impl.f, impl2.f) {
-		sink.add(report.Viol{Property: "C08", Check: "C08/roundtrip", Rule: "roundtrip-ast", Text: fmt.Sprintf("%q prints as %q which parses to a different filter", s, text2), Trace: []string{s, text2}})
-		return
-	}
+	// (the property asks for an EQUIVALENT filter, not an identical syntax tree:
+	// a printer may e.g. drop redundant parentheses; equivalence is decided on all
+	// attribute maps below)
 	for _, m := range maps {
 		r1, e1 := impl.f.Evaluate(m)
 		r2, e2 := impl2.f.Evaluate(m)
@@ -197,6 +195,17 @@ func runC08(t *testing.T, tier string) int {
 			out = append(out, p...)
 		}
 		return out
+	}
+	for _, a := range terms2 {
+		sentences = append(sentences,
+			join([]string{"("}, a, []string{")"}),
+			join([]string{"NOT", "("}, a, []string{")"}),
+			join([]string{"-", "("}, a, []string{")"}),
+			join([]string{"NOT", "(", "NOT", "("}, a, []string{")", ")"}),
+			join([]string{"(", "("}, a, []string{")", ")"}),
+			join([]string{"attributes", ":", "k", "AND", "NOT", "("}, a, []string{")"}),
+			join([]string{"NOT", "("}, a, []string{")", "OR", "-", "("}, a, []string{")"}),
+		)
 	}
 	for _, a := range terms2 {
 		for _, b := range terms2 {
